@@ -6,6 +6,8 @@ package main
 
 import (
 	"fmt"
+	"math"
+	"math/big"
 	"strings"
 	"sync"
 	"time"
@@ -128,19 +130,22 @@ func runC01(c *Ctx) {
 		if i%8 == 5 {
 			kind = []string{"bytes-short", "string-short"}[(i/8)%2] // default hashing of short keys that differ only in trailing zero bytes
 		}
+		if i%8 == 1 {
+			kind = []string{"bytes-long", "string-long"}[(i/8)%2] // default hashing of long keys that differ only in their middle
+		}
 		nk := lab.Pick(rng, []int{4, 8, 16, 64})
 		if kind == "byte" && nk > 200 {
 			nk = 64
 		}
 		collide := 0
-		if i%2 == 1 && i%8 != 5 {
+		if i%2 == 1 && i%8 != 5 && i%8 != 1 {
 			collide = lab.Pick(rng, []int{1, 2, 4})
 		}
 		capacity := lab.Pick(rng, []int64{int64(nk) * 4, int64(nk), int64(max(1, nk/4))})
 		o := stressOpts{
 			Name: fmt.Sprintf("c01-%s-collide%d-nk%d-cap%d", kind, collide, nk, capacity),
 			Cfg: lab.CacheCfg{NumCounters: int64(nk * 10), MaxCost: capacity, BufferItems: lab.Pick(rng, []int64{1, 8, 64}), IgnoreInternalCost: true,
-				KeyKind: kind, Collide: collide, NKeys: nk, TTLTick: 1, SetBuf: lab.Pick(rng, []int{0, 0, 64, 4}), AllowHashDup: i%8 == 5},
+				KeyKind: kind, Collide: collide, NKeys: nk, TTLTick: 1, SetBuf: lab.Pick(rng, []int{0, 0, 64, 4}), AllowHashDup: i%8 == 5 || i%8 == 1, KeyZero: i%4 == 2},
 			Workers: lab.Pick(rng, []int{2, 4, 8, 16, 64}), Probers: 1, OpsPerPhase: 0, Phases: 2,
 			Mix: baseMix(), TTLsMs: []int{1, 5, 20, 50}, CostMode: "one", DelayLevel: float64(rng.Intn(3)) * 0.5,
 			EndWith: "close", Stream: uint64(i),
@@ -170,7 +175,7 @@ func runC04(c *Ctx) {
 		o := stressOpts{
 			Cfg: lab.CacheCfg{NumCounters: int64(nk * 10), MaxCost: lab.Pick(rng, []int64{2, int64(nk / 4), int64(nk), int64(nk * 20)}), BufferItems: 64,
 				IgnoreInternalCost: true, KeyKind: lab.Pick(rng, []string{"uint64", "string"}), NKeys: nk, TTLTick: 1,
-				SetBuf: []int{1, 4, 64, 32768}[i%4]},
+				SetBuf: []int{1, 4, 64, 32768}[i%4], KeyZero: i%4 == 1},
 			Workers: lab.Pick(rng, []int{2, 4, 8, 16}), Probers: 1, Phases: 3,
 			Mix: baseMix(), TTLsMs: []int{1, 10, 100, 1500, -5}, CostMode: lab.Pick(rng, []string{"one", "key", "random"}),
 			DelayLevel: float64(rng.Intn(3)) * 0.5, EndWith: lab.Pick(rng, []string{"close", "clear"}), Stream: uint64(i),
@@ -209,7 +214,7 @@ func runQuiescent(c *Ctx, prop string) {
 		nk := lab.Pick(rng, []int{8, 32, 128, 512})
 		o := stressOpts{
 			Cfg: lab.CacheCfg{NumCounters: int64(nk * 10), BufferItems: lab.Pick(rng, []int64{1, 64}), KeyKind: "uint64", NKeys: nk, TTLTick: 1,
-				SetBuf: []int{1, 4, 64, 32768}[i%4], Metrics: prop == "C17" || i%2 == 0, IgnoreInternalCost: i%3 != 0},
+				SetBuf: []int{1, 4, 64, 32768}[i%4], Metrics: prop == "C17" || i%2 == 0, IgnoreInternalCost: i%3 != 0, KeyZero: i%4 == 2},
 			Workers: lab.Pick(rng, []int{2, 4, 8}), Probers: 1, Phases: 5, Quiesce: true,
 			Mix: baseMix(), TTLsMs: []int{1, 10, 100, 1200}, DelayLevel: float64(rng.Intn(3)) * 0.5,
 			EndWith: "close", Stream: uint64(i), ClearAtBarrier: i%4 == 1,
@@ -477,6 +482,9 @@ func runC03Directed(c *Ctx) {
 		}
 		defer wg.Wait()
 	}
+	if c.Part == 1%c.NParts {
+		c03Huge(c)
+	}
 	c.R.Rule = "directed: cache filled exactly with n residents of cost 1 (n = MaxCost in {8, 40, 100}), optionally hot residents, then one newcomer of cost c for every c in 1..MaxCost+1; after Wait: RemainingCost() >= 0, == MaxCost - sum of accounted costs, newcomer admitted only if its cost <= MaxCost; distinct by (MaxCost, c, hot residents, internal cost)"
 	idx := 0
 	for _, m := range []int{8, 40, 100} {
@@ -615,3 +623,66 @@ func c03ExpiredReset(c *Ctx, c0, c1 int64, stream uint64) {
 	c.R.Obs("directed_expired_reset_cases", 1)
 	c.R.DistinctKey("%s", name)
 }
+
+// c03Huge: capacities above MaxInt64/2 (MaxInt64 is the usual "unbounded" setting) with costs of the same
+// magnitude: used+cost exceeds the int64 range although every single quantity is legal. The newcomers are made hot so
+// that they are admitted whenever they can be.
+func c03Huge(c *Ctx) {
+	const big = int64(1) << 60
+	type hc struct {
+		max   int64
+		costs []int64
+	}
+	cases := []hc{
+		{math.MaxInt64, []int64{3 * big, 3 * big, 3 * big, 3 * big}},
+		{math.MaxInt64, []int64{7 * big, 1 * big, 5 * big, 4 * big}},
+		{math.MaxInt64, []int64{math.MaxInt64 - 4096, 4000, 200, math.MaxInt64 / 2}},
+		{6 * big, []int64{4 * big, 5 * big, 2 * big, 6 * big}},
+		{6 * big, []int64{6 * big, 1, 6*big - 1, 3 * big}},
+		{math.MaxInt64/2 + 1, []int64{math.MaxInt64 / 4, math.MaxInt64 / 4, math.MaxInt64 / 4, math.MaxInt64 / 2}},
+		{5 * big, []int64{2 * big, 2 * big, 2 * big, 2 * big, 2 * big}},
+	}
+	for ci, hcase := range cases {
+		for _, internal := range []bool{false, true} {
+			c.R.Eval(1)
+			name := fmt.Sprintf("c03d-huge-%d-internal%v", ci, internal)
+			c.J.Case(name)
+			l, err := lab.NewLab(lab.CacheCfg{NumCounters: 2000, MaxCost: hcase.max, BufferItems: 1, IgnoreInternalCost: !internal, KeyKind: "uint64", NKeys: len(hcase.costs) + 1})
+			if err != nil {
+				c.R.Inconc(1)
+				continue
+			}
+			cl := l.NewClient()
+			for k, cost := range hcase.costs {
+				l.C.Increment(l.Hashes[k][0], 2+k) // later keys are hotter: they may displace earlier ones
+				cl.Set(k, cl.NextVal(k), cost, 0)
+				cl.Wait()
+				l.C.Pause()
+				s := l.C.Snapshot()
+				rc := l.C.RemainingCost()
+				l.C.Resume()
+				sum := new(big2).SetInt64(0)
+				for _, x := range s.KeyCosts {
+					sum.Add(sum, new(big2).SetInt64(x))
+				}
+				bad := func(sig, d string) {
+					c.R.Violate("C03/"+sig, fmt.Sprintf("[%s step %d, cost %d] %s", name, k, cost, d), name)
+				}
+				if rc < 0 {
+					bad("negative-remaining", fmt.Sprintf("RemainingCost()=%d with MaxCost %d; accounted %v", rc, s.MaxCost, s.KeyCosts))
+				}
+				if sum.Cmp(new(big2).SetInt64(s.MaxCost)) > 0 {
+					bad("accounted-above-maxcost", fmt.Sprintf("sum of accounted costs %s > MaxCost %d; accounted %v", sum.String(), s.MaxCost, s.KeyCosts))
+				} else if sum.Int64() != s.Used || rc != s.MaxCost-s.Used {
+					bad("remaining-identity", fmt.Sprintf("RemainingCost()=%d, MaxCost=%d, sum of accounted costs=%s, used=%d", rc, s.MaxCost, sum.String(), s.Used))
+				}
+				c.R.Obs("huge_admissions", 1)
+				c.R.DistinctKey("%s/%d/n%d", name, k, len(s.KeyCosts))
+			}
+			l.C.Close()
+			l.Forget()
+		}
+	}
+}
+
+type big2 = big.Int
